@@ -15,12 +15,15 @@ CHECKS = {
    technique="explicit-state BFS over real objects (history replay) with delta-replay oracle",
    design_ref="4/C12"),
  "C13": dict(level="model_checking", engine="E2 bfs + E1 sched",
-   text="Explicit-state breadth-first search over operation histories (Add/CheckedAdd/Remove/Clear/Clone/Or/And/AndNot/Xor and operand edits) on a "
-        "receiver and an operand for every ordered pairing of {bitmap, threadSafe(bitmap)} at both widths, over value windows straddling the 2^16, 2^32 "
-        "and 2^48 boundaries with dense blocks that force bitmap containers; after every step every read (Cardinality, Slice, Contains, Each incl. early stop) "
-        "of receiver and operand must equal a map-based set.",
-   note="Trusted: canonical state = serialised roaring layout of both providers + reference sets. Depth-bounded (quick 4, thorough 7).",
-   technique="explicit-state BFS over real objects (history replay) against a set reference model",
+   text="(1) Explicit-state BFS over operation histories (Add/CheckedAdd/Remove/Clear/Clone/Or/And/AndNot/Xor and operand edits) on a receiver and an operand "
+        "for every ordered pairing of {bitmap, threadSafe(bitmap)} at both widths, over value windows straddling the 2^16, 2^32 and 2^48 boundaries with dense blocks "
+        "that force bitmap containers; every read of receiver and operand must equal a map-based set after every step. (2) Every interleaving (unbounded) of 2-3 "
+        "thread programs over two thread-safe wrappers (binary operations take the other wrapper as operand) on the real code under a controlled scheduler; "
+        "each history must be linearizable against a pair of sets, with deadlock/panic detection. (3) A free-running -race pass (sampling, reported separately).",
+   note="Trusted: canonical state = serialised roaring layout + reference sets; shim fidelity to sync.Mutex. Reading made explicit: an in-place binary operation "
+        "on wrappers reads one consistent operand state and then updates the receiver atomically (two instants inside the call), cross-object atomicity is not demanded. "
+        "Sequential depth bound quick 4 / thorough 7.",
+   technique="explicit-state BFS + stateless schedule enumeration (controlled scheduler) with brute-force linearizability oracle",
    design_ref="4/C13"),
  "C16": dict(level="model_checking", engine="E2 bfs + E1 sched",
    text="(1) Explicit-state BFS over every Put/Get/Delete history on the real SIEVE and non-expiring caches (4 keys, capacities -1..4) until the reachable "
